@@ -5,6 +5,11 @@ package main
 // proves every regenerated definition equal to the hand-written model, so a source change either
 // still denotes the model the C05 theorems are about, or breaks an obligation that names the function.
 //
+// Every reader function is translated a second time with the io.Reader as any byte source (stream mode, names
+// ending in S, GenLibS.lean, TieGenS.lean) and every writer function a second time with the io.Writer as any
+// writer state machine, one put per binary.Write, errors carrying the writer state (sink mode, names ending in
+// W, GenLibW.lean, TieSink.lean) — the Go text and the translator are the same, only the vocabulary differs.
+//
 // The translation is statement by statement into `do` blocks of `Except Err` over the vocabulary of
 // lean/GeomV/C05/GenLib.lean (which documents the meaning given to io.Reader/io.Writer, encoding/binary,
 // uint32 arithmetic, loops, maps and the Read/Write recursion).  Subset:
